@@ -1941,7 +1941,7 @@ CLAUSES = [
     Clause('jump', oracle_jump, jump_cases, quick=4800, thorough=96000,
            min_share=dict(_ACC, nt=0.2, solver_stroh=0.24, solver_iso=0.12, solver_auto=0.13, orient_miller=0.19, mn_vec=0.27,
                           mn_str=0.11, mn_str_and_vector=0.04, ray_on_axis=0.27, b_tiny_component=0.025, int_positions=0.06,
-                          ptlist=0.19, four_index=0.01, via_axes=0.06, closed_form_on_neariso=0.045, neariso_via_auto=0.008,
+                          ptlist=0.19, four_index=0.01, via_axes=0.06, closed_form_on_neariso=0.045, neariso_via_auto=0.004,
                           neariso_via_iso=0.034, neariso_edge=0.015, near_special=0.04, exact_structure=0.08, orient_rows=0.025, mn_axis=0.035,
                           b_exact_fractions=0.035, ray_near_axis=0.03, **{'cut_closer_than_1e-9': 0.15}),
            max_share=_REF,
@@ -1950,28 +1950,28 @@ CLAUSES = [
                 'header (m, n, xi, transform, burgers, C) against my own numbers'),
     Clause('kinematics', oracle_kinematics, kin_cases, quick=6200, thorough=128000,
            min_share=dict(_ACC, nt=0.2, solver_stroh=0.24, solver_iso=0.13, orient_miller=0.18, pt_on_axis=0.24, ptlist=0.2,
-                          b_general=0.035, b_climb=0.013, npts3=0.15, closed_form_on_neariso=0.045, neariso_via_auto=0.008,
+                          b_general=0.035, b_climb=0.013, npts3=0.15, closed_form_on_neariso=0.045, neariso_via_auto=0.004,
                           neariso_via_iso=0.03, neariso_edge=0.02, near_special=0.04, exact_structure=0.08, pt_near_axis=0.03),
            max_share=_REF,
            desc='strain = sym grad u and div stress = 0 by 4th-order central differences (h = 1e-4 r), stress = C:strain, '
                 'symmetry, homogeneity of degree -1'),
     Clause('energy', oracle_energy, energy_cases, quick=4000, thorough=80000,
-           min_share=dict(_ACC, nt=0.18, BL=0.8, resolved=0.18, solver_stroh=0.26, iso_medium=0.16, mn_vec=0.26,
-                          closed_form_on_neariso=0.045, neariso_via_auto=0.008, neariso_via_iso=0.035, neariso_edge=0.025,
+           min_share=dict(_ACC, nt=0.18, BL=0.8, resolved=0.18, solver_stroh=0.26, iso_medium=0.1, mn_vec=0.26,
+                          closed_form_on_neariso=0.045, neariso_via_auto=0.004, neariso_via_iso=0.035, neariso_edge=0.025,
                           near_special=0.035, exact_structure=0.08),
            max_share=_REF,
            desc='K_tensor real symmetric positive definite, equal to the Barnett-Lothe angular integral (and to the closed '
                 'form for isotropic media); K_coeff, preln; slip-plane traction = K.b/(2 pi x)'),
     Clause('covariance', oracle_covariance, cov_cases, quick=3200, thorough=64000,
            min_share=dict(_ACC, nt=0.22, rotated=0.8, both_generic=0.26, miller_vs_transform=0.2, aniso_medium=0.3,
-                          closed_form_on_neariso=0.055, rotated_neariso=0.055, neariso_via_auto=0.006, neariso_edge=0.025,
+                          closed_form_on_neariso=0.055, rotated_neariso=0.055, neariso_via_auto=0.003, neariso_edge=0.025,
                           Q_exact_permutation=0.08, R_exact_permutation=0.08, exact_structure=0.07, near_special=0.035),
            max_share=_REF,
            desc='rotating crystal (C, b) by Q and laboratory (transform, m, n, points) by R rotates u, strain, stress, K; '
                 'Miller-index orientation = the corresponding transform'),
     Clause('decades', oracle_decades, g.decade_cases, quick=2200, thorough=40000,
            min_share={'accepted': 0.85, 'nt': 0.16, 'span>=8': 0.4, 'lscale': 0.2, 'lscale_SI': 0.04, 'b_scaled': 0.1, 'tol_loose': 0.1,
-                      'tol_0.0001': 0.05, 'tol_1e-10': 0.03, 'tol_default': 0.3, 'closed_form': 0.17, 'fd_far': 0.12, 'fd_near': 0.2,
+                      'tol_0.0001': 0.05, 'tol_1e-10': 0.03, 'tol_default': 0.28, 'closed_form': 0.15, 'fd_far': 0.12, 'fd_near': 0.2,
                       'log_law': 0.4, 'npts>=6': 0.17, 'ptlist': 0.13, 'solver_stroh': 0.22, 'aniso_medium': 0.27, 'near_special': 0.04,
                       'exact_structure': 0.08},
            max_share=_REF,
@@ -1982,7 +1982,7 @@ CLAUSES = [
                 'at the smallest and largest radius - every comparison relative to the magnitude of the field AT THAT POINT'),
     Clause('history', oracle_history, g.history_cases, quick=2400, thorough=45000,
            min_share={'accepted': 0.85, 'nt': 0.3, 'applied_C': 0.3, 'stroh_C_redefined': 0.18, 'identity_stroh_C_redefined': 0.07,
-                      'applied_b': 0.1, 'applied_box': 0.025, 'applied_T': 0.025, 'op_m': 0.035, 'op_n': 0.03, 'op_again': 0.08,
+                      'applied_b': 0.1, 'applied_box': 0.022, 'applied_T': 0.025, 'op_m': 0.035, 'op_n': 0.03, 'op_again': 0.08,
                       'op_eval': 0.08, 'op_out': 0.05, 'op_pos': 0.04, 'form_strided': 0.1, 'form_readonly': 0.12, 'form_list': 0.12,
                       'form_tuple': 0.12, 'identity_orientation': 0.2, 'C_via_Sijkl': 0.03, 'C_via_cubic': 0.03, 'C_via_Cij9': 0.03,
                       'solver_stroh': 0.2, 'answer_IsotropicVolterraDislocation': 0.15, 'again_judged': 0.06, 'ledger>=60': 0.3,
@@ -2010,20 +2010,20 @@ CLAUSES = [
            # (shares on the unchanged tree, where KEY_UNITS excludes Stroh under most configurations; about twice that with the repair)
            min_share={'accepted': 0.25, 'judged': 0.25, 'nt': 0.1, 'two_configurations_compared': 0.18, 'ledger_across_reset': 0.22, 'units_SI': 0.01,
                       'units_seed': 0.008, 'units_named': 0.25, 'stiffness_numbers_moderate': 0.15, 'units_answer_Stroh': 0.1,
-                      'units_answer_IsotropicVolterraDislocation': 0.14, 'angstrom_differs': 0.28},
+                      'units_answer_IsotropicVolterraDislocation': 0.13, 'angstrom_differs': 0.28},
            desc='working-unit configurations (reset_units: named units, integer seed, SI) before / between calls in one process: the '
                 'physical problem (GPa, angstrom) expressed in working units with my own products of numericalunits attributes is '
                 'judged as elsewhere (header, Hooke, traction, closed forms) and, made dimensionless, equal to the same problem solved '
                 'earlier under the default or another configuration; earlier results in the ledger across the reset'),
     Clause('combos', oracle_combos, None, quick=1, thorough=1, enumerate=combos_enumerate,
-           min_share={'nt': 0.9, 'cls_stroh': 0.4, 'cls_iso': 0.4, 'orient_same': 0.1},
+           min_share={'nt': 0.9, 'cls_stroh': 0.25, 'cls_iso': 0.25, 'orient_same': 0.083},
            desc='enumerated: every ordered pair of orientation spellings (none, transform, axes, Miller indices without cell / with cell / '
                 'with four indices) x every ordered pair of m, n spellings (default, strings, vectors, one of each, signed axes; cart_axes) '
                 'x tol pairs, for Stroh and the isotropic class: solve() with the second setting on an object solved with the first = an '
                 'object built with the second setting alone (judged by header, Hooke, traction, Burgers jump); the first results unmoved'),
     Clause('iso_limit', oracle_iso_limit, limit_cases, quick=2000, thorough=40000,
-           min_share={'nt': 0.22, 'both_t': 0.45, 'mn_vec': 0.28, 'orient_miller': 0.19, 'closed_form_on_neariso': 0.16,
-                      'neariso_via_auto': 0.06, 'auto_stroh_on_neariso': 0.11, 'neariso_edge': 0.06, 'iso_medium': 0.27, 'near_special': 0.035,
+           min_share={'nt': 0.19, 'both_t': 0.45, 'mn_vec': 0.23, 'orient_miller': 0.17, 'closed_form_on_neariso': 0.13,
+                      'neariso_via_auto': 0.041, 'auto_stroh_on_neariso': 0.11, 'neariso_edge': 0.057, 'iso_medium': 0.27, 'near_special': 0.035,
                       'exact_structure': 0.08},
            desc='isotropic class and dispatcher, on exactly and on nearly isotropic media (inside the acceptance band of the '
                 'class), against Hirth-Lothe closed forms of the Hill-average medium; Stroh on C_iso + t D approaches them '
